@@ -447,14 +447,16 @@ def mutate_case(rng, case):
 
 
 CLAIMED = True
-LEVEL_TEXT = ("Theorems (all states satisfying the invariant, all arguments, call succeeding or raising): add (default flags or uid=True), "
-              "connect, disconnect, remove, set_output, add_blackbox and add_subcircuit (subcircuit itself legally wired) preserve the "
-              "wiring invariant and the pin clause, hence so does every finite history of them from the empty circuit or any legal "
-              "state; a rejected call of ANY of the eight operations changes no edge and not the registry and raises ValueError "
-              "(KeyError for set_output on a missing node); add never changes an existing node, returns a free name, and the uid loop "
-              "always ends on a free name. Open: a SUCCEEDING fill_blackbox (invariant and pin clause) is stated in full and decided "
-              "per history by the Coq oracle on the recorded implementation states.")
-LEVEL_NOTE = ("Trusted: Coq kernel + vm_compute, std++, translator shapes for the type lists of connect/add (Gen_types, proved equal "
-              "to the documented lists), harness canonicalisation and the recorded set orders. The hand-written state machine "
+LEVEL_TEXT = ("Theorems (all states satisfying the invariant, all arguments, call succeeding or raising, all eight operations add (default "
+              "flags or uid=True), connect, disconnect, remove, set_output, add_blackbox, add_subcircuit, fill_blackbox; a subcircuit "
+              "argument itself legally wired): the wiring invariant and the pin clause are preserved, hence by every finite history "
+              "from the empty circuit or any legal state (fill_blackbox pins: no pin of another instance is a pin node of the filled "
+              "one, automatic for dot-free instance names); a rejected call changes no edge and not the registry and raises ValueError "
+              "(KeyError for set_output on a missing node); add never changes an existing node, returns a free name, the uid loop ends "
+              "on a free name. Beyond the property text: add_connected_nodes preserves the invariant, allow_redefinition only "
+              "closedness and documented types (counterexamples for the other clauses).")
+LEVEL_NOTE = ("Trusted: Coq kernel + vm_compute, std++, translators for the type lists of connect/add (Gen_types, proved equal to the "
+              "documented lists) and for the order of tests, raises and mutations of 11 Circuit methods (Gen_api, proved equal to the "
+              "order the model implements), harness canonicalisation and the recorded set orders. The hand-written state machine "
               "Base/Api.v is tied to circuitgraph.Circuit by equality of the full state after every call of the generated histories.")
 TECHNIQUE = "Coq proof (invariant by induction over operations) + regenerated tables + vm_compute correspondence on recorded histories"
